@@ -143,7 +143,15 @@ void harness(void) {
 	case I_SPLICE_REV: { il_splice(&L2, &L); for(int j = 0; j < NN; j++) if(j < nL) eL2[n2L + j] = eL[j]; n2L += nL; nL = 0; did = 1; break; }
 	}
 out:
-	if(did) { check_state(); VP_WITNESS(0, "operation executed and post-state checked"); }
+	if(did) {
+		check_state(); VP_WITNESS(0, "operation executed and post-state checked");
+		/* non-vacuity per operation (those applicable for this M / M2) */
+		VP_WITNESS(op != I_PUSH_FRONT, "push_front executed"); VP_WITNESS(op != I_PUSH_BACK, "push_back executed"); VP_WITNESS(op != I_INSERT, "insert executed");
+		VP_WITNESS(op != I_CLEAR, "clear executed"); VP_WITNESS(op != I_SPLICE, "splice executed"); VP_WITNESS(op != I_SPLICE_REV, "splice (other direction) executed");
+#if M > 0
+		VP_WITNESS(op != I_ERASE, "erase executed"); VP_WITNESS(op != I_POP_FRONT, "pop_front executed"); VP_WITNESS(op != I_POP_BACK, "pop_back executed");
+#endif
+	}
 }
 
 #ifdef VP_NATIVE
